@@ -455,6 +455,25 @@ def dsk2(ctx, c):
             c.finding("write_dir_entry:nul", "the characters of the name are stored as they are, NUL included",
                       "write_dir_entry stores ord(letter) for every character of the name: a name that begins with NUL gives an entry whose first byte is 00, which "
                       "directory_entry_in_use and list_files read as a deleted entry - the file is not listed, the next file reuses the slot, the granules leak", where)
+    # the reader takes every name the writer stores: write_dir_entry stores any character, so an entry refused for the TEXT of its name is an image of the
+    # tool's own making that it no longer recognises as a disk (get_coco_files reads the refusal as "not a disk")
+    lfr = repo.method(CLS, "list_files")
+    from ..inline import flatten as _flr
+    lfr_flat = _flr(repo, lfr, depth=2, only={m_ for m_ in repo.cls(CLS).methods if m_ not in ("read_data", "seek_granule", "read_sequence", "calculate_file_length")})
+    STRPRED = ("isalnum", "isalpha", "isprintable", "isascii", "isupper", "islower", "isidentifier", "isdigit", "isspace", "istitle", "isnumeric", "isdecimal")
+    text_guard = []
+    for n in ast.walk(lfr_flat):
+        if isinstance(n, ast.If) and n.body and isinstance(n.body[-1], ast.Raise):
+            preds = [x for x in ast.walk(n.test) if isinstance(x, ast.Call) and isinstance(x.func, ast.Attribute) and x.func.attr in STRPRED]
+            rx = [x for x in ast.walk(n.test) if isinstance(x, ast.Call) and U(x.func).startswith("re.")]
+            if preds or rx:
+                text_guard.append(n)
+    if text_guard:
+        c.finding("list_files:name-text", "an entry is refused for the text of a field (%s)" % U(text_guard[0].test)[:50],
+                  "list_files raises when `%s`: write_dir_entry stores whatever name it is given, so a disk written by the tool with such a name is refused, and get_coco_files "
+                  "then takes the image for something other than a disk" % U(text_guard[0].test)[:70], repo.loc(lfr, text_guard[0]))
+    else:
+        c.ok("list_files:name-text", "no entry is refused for the characters of its name", repo.loc(lfr, lfr.node))
     # the name and extension bytes come from the file's own name and extension, padded / cut / upper-cased and nothing else:
     # a default substituted for an empty one stores a different name than the one asked for
     binds = {}
@@ -678,7 +697,7 @@ def dsk3(ctx, c):
             bufp, ptrp = params[0], params[1]
             from .enc import make_resolver
             from ..inline import flatten as _fl
-            it = Interp(_fl(repo, f, depth=2), consts=ctx.env, sub_bases=(bufp,), resolver=make_resolver(repo, f),
+            it = Interp(_fl(repo, f, depth=2), consts={**ctx.env, **ctx.self_env(cls)}, sub_bases=(bufp,), resolver=make_resolver(repo, f),
                         init_env={ptrp: Opq("P"), "self.length": Const(length) if length is not None else Opq("self.length")})
             outs = [o for o in it.run() if o.kind == "return"]
             # return value = P + length
@@ -721,7 +740,7 @@ def dsk3(ctx, c):
                             idx = int(idx)
                         except ValueError:
                             idx = None
-                        flags.append((idx, type(nn.test.ops[0]).__name__, try_fold(nn.test.comparators[0], ctx.env)))
+                        flags.append((idx, type(nn.test.ops[0]).__name__, try_fold(nn.test.comparators[0], {**ctx.env, **ctx.self_env(cls)})))
                 if any(None in fl for fl in flags) or (sp["flag"] is not None and not flags and any(isinstance(x, ast.Raise) for x in ast.walk(f.node))):
                     c.undecided("%s.read:flags" % cls, "flag-tests-not-recognised", str(flags), w)
                     flags = None
@@ -744,8 +763,24 @@ def dsk3(ctx, c):
                         c.check(good, "%s.read:%s" % (cls, fld), "(b[%d] << 8) + b[%d]" % (hi, lo), "reads %s" % txt[:100],
                                 "%s.read must build %s from byte +%d (high) and +%d (low); it computes %s" % (cls, fld, hi, lo, txt[:120]), w)
     c.floor("preamble/postamble methods", n, 8)
-    # which preamble for which file kind (writer add_file vs reader list_files)
-    for meth in ("add_file", "list_files"):
+    # which preamble for which file kind: the writer add_file is evaluated once per kind
+    af = repo.method(CLS, "add_file")
+    w = repo.loc(af, af.node)
+    amble = {"MLPreamble", "ASCIIPreamble", "BasicPreamble"}
+    wrong, open_ = [], []
+    for kind, want_pre, want_post, env, events, notes, end in _add_file_runs(ctx):
+        built = [e[1] for e in events if e[0] == "new" and e[1] in amble]
+        if notes or (end or "").startswith("raise"):
+            open_.append("%s: %s" % (kind, "; ".join(sorted(set(notes)))[:80] or end))
+        elif built != [want_pre]:
+            wrong.append("%s file -> %s" % (kind, ",".join(built) or "no header object"))
+    if open_:
+        c.undecided("add_file:preamble-selection", "selection-not-evaluable", " | ".join(open_)[:200], w)
+    else:
+        c.check(not wrong, "add_file:preamble-selection", "type 2 -> ML, ASCII flag FF -> none, else BASIC", "selection %s" % "; ".join(wrong),
+                "add_file, evaluated per file kind, builds: %s; the format is: file type 2 -> machine-language header, ASCII flag FF -> none, otherwise BASIC header" % "; ".join(wrong), w)
+    # the reader list_files: the shape `if <type test>: preamble = <Class>(...)`
+    for meth in ("list_files",):
         f = repo.method(CLS, meth)
         w = repo.loc(f, f.node)
         sel = []
@@ -755,13 +790,15 @@ def dsk3(ctx, c):
                 first = nn.body[0] if nn.body else None
                 if isinstance(first, ast.Assign) and U(first.targets[0]) == "preamble" and isinstance(first.value, ast.Call):
                     sel.append((t, U(first.value.func)))
-                    if nn.orelse and isinstance(nn.orelse[0], ast.Assign) and U(nn.orelse[0].targets[0]) == "preamble":
+                    if nn.orelse and isinstance(nn.orelse[0], ast.Assign) and U(nn.orelse[0].targets[0]) == "preamble" and isinstance(nn.orelse[0].value, ast.Call):
                         sel.append(("else", U(nn.orelse[0].value.func)))
         kinds = [k for _, k in sel]
         good = kinds[:3] == ["MLPreamble", "ASCIIPreamble", "BasicPreamble"] and len(sel) >= 3 and \
             re.search(r"type\.int == (2|0x02)$", sel[0][0]) is not None and re.search(r"data_type\.int == (255|0xFF|0xff)$", sel[1][0]) is not None
-        if not sel:
-            c.undecided("%s:preamble-selection" % meth, "selection-not-found", "", w)
+        recognised = len(sel) >= 3 and all(k in amble for k in kinds) and all(
+            t == "else" or re.fullmatch(r"[\w.]*type\.int == (\d+|0[xX][0-9a-fA-F]+)", t) for t, _ in sel)
+        if not sel or not recognised:
+            c.undecided("%s:preamble-selection" % meth, "selection-shape-not-recognised", str(sel)[:120], w)
         else:
             c.check(good, "%s:preamble-selection" % meth, "type 2 -> ML, ASCII flag FF -> none, else BASIC", "selection %s" % sel,
                     "%s selects the preamble as %s; the format is: file type 2 -> machine-language header, ASCII flag FF -> none, otherwise BASIC header" % (meth, sel), w)
@@ -908,6 +945,25 @@ def dsk4(ctx, c):
         c.ok("calculate_file_length:arithmetic", "full granules * 2304 + (sectors - 1) * 256 + last-sector bytes", wc)
     else:
         c.undecided("calculate_file_length:arithmetic", "expression-shape-unknown", "", wc)
+    # the same substitution made by a caller: the byte count handed to calculate_file_length is the directory's, 0 included
+    cf_params = [p_ for p_ in cf.params if p_ not in ("self", "cls")]
+    for f_ in repo.cls(CLS).methods.values():
+        for call in [x for x in ast.walk(f_.node) if isinstance(x, ast.Call) and U(x.func).endswith("calculate_file_length")]:
+            if len(cf_params) < 3:
+                continue
+            a_ = call.args[2] if len(call.args) >= 3 else next((k.value for k in call.keywords if k.arg == cf_params[2]), None)
+            if a_ is None:
+                continue
+            srcs = [a_]
+            if isinstance(a_, ast.Name):
+                srcs += [n_.value for n_ in ast.walk(f_.node) if isinstance(n_, ast.Assign) and any(U(t_) == a_.id for t_ in n_.targets)]
+            sub_ = [x for x in srcs if isinstance(x, (ast.BoolOp, ast.IfExp))]
+            if sub_:
+                c.finding("%s:last-sector-bytes" % f_.name, "the count handed to calculate_file_length is replaced when it is zero: %s" % U(sub_[0])[:50],
+                          "%s passes `%s` as the bytes used in the last sector: the writer records 0 for a stream that ends on a sector boundary (with one sector more), "
+                          "so replacing 0 makes such a file read back 256 bytes longer than it was written" % (f_.name, U(sub_[0])[:70]), repo.loc(f_, call))
+            elif all(isinstance(x, (ast.Attribute, ast.Name)) for x in srcs):
+                c.ok("%s:last-sector-bytes" % f_.name, "the directory's count, as recorded", repo.loc(f_, call))
     # read_data: the chain link is the FAT byte itself (granule numbers reach 67 = 0x43)
     rd = repo.method(CLS, "read_data")
     wr = repo.loc(rd, rd.node)
@@ -1343,29 +1399,54 @@ WORKERS = ("write_to_granules", "write_dir_entry", "write_to_fat", "find_empty_g
            "calculate_last_sector_bytes_used", "calculate_last_granules_sectors_used", "granule_in_use", "directory_entry_in_use")
 
 
+def _add_file_runs(ctx):
+    """DiskFile.add_file evaluated once per file kind: (kind, header class wanted, trailer class wanted, end environment, events, notes, how it ended)"""
+    from ..inline import flatten
+    from ..concrete import ClsRef, run_concrete, class_level_functions
+    repo = ctx.repo
+
+    def build():
+        af = repo.method(CLS, "add_file")
+        p_file = [p for p in af.params if p != "self"][0]
+        flat = flatten(repo, af, depth=2, only={m_ for m_ in repo.cls(CLS).methods if m_ not in WORKERS})
+        classes = [cn for cn in ("MLPreamble", "ASCIIPreamble", "BasicPreamble", "Postamble", "Preamble") if repo.has_cls(cn)]
+
+        def resolver(name):
+            f_ = repo.lookup(repo.cls(CLS), name)
+            return f_.node if f_ is not None else None
+        runs = []
+        for kind, t_int, d_int, want_pre, want_post in (("machine-language", 0x02, 0x00, "MLPreamble", "Postamble"), ("ASCII", 0x01, 0xFF, "ASCIIPreamble", None),
+                                                         ("BASIC", 0x00, 0x00, "BasicPreamble", None),
+                                                         # the file type decides first: type 2 is machine language whatever the ASCII flag says
+                                                         ("machine-language/ASCII-flag", 0x02, 0xFF, "MLPreamble", "Postamble")):
+            env = dict(ctx.env)
+            for cn in classes + ["VirtualFileValidationError"]:
+                env[cn] = ClsRef(cn)
+            env.update({"%s.type.int" % p_file: t_int, "%s.data_type.int" % p_file: d_int})
+            events, notes = [], []
+            end = run_concrete(body_without_doc(flat), env, events, notes, workers=WORKERS, resolver=resolver, functions=class_level_functions(repo))
+            runs.append((kind, want_pre, want_post, env, events, notes, end))
+        return runs
+    return ctx.memo(("dsk", "add_file_runs"), build)
+
+
 def dsk8(ctx, c):
     """DSK-8 DiskFile.add_file evaluated for each file kind (machine language, ASCII, BASIC/data): header and trailer objects carry the file's own
     length and addresses; granules found are the granules recorded; the directory entry, the data and the FAT chain are all written, each from
     the values computed for this file."""
     from ..inline import flatten
-    from ..concrete import Obj, ClsRef, run_concrete
+    from ..concrete import Obj, ClsRef, run_concrete, class_level_functions
     repo = ctx.repo
     af = repo.method(CLS, "add_file")
     where = repo.loc(af, af.node)
     p_file = [p for p in af.params if p != "self"][0]
     flat = flatten(repo, af, depth=2, only={m_ for m_ in repo.cls(CLS).methods if m_ not in WORKERS})
     classes = [cn for cn in ("MLPreamble", "ASCIIPreamble", "BasicPreamble", "Postamble", "Preamble") if repo.has_cls(cn)]
-    for kind, t_int, d_int, want_pre, want_post in (("machine-language", 0x02, 0x00, "MLPreamble", "Postamble"), ("ASCII", 0x01, 0xFF, "ASCIIPreamble", None),
-                                                     ("BASIC", 0x00, 0x00, "BasicPreamble", None)):
-        env = dict(ctx.env)
-        for cn in classes + ["VirtualFileValidationError"]:
-            env[cn] = ClsRef(cn)
-        env.update({"%s.type.int" % p_file: t_int, "%s.data_type.int" % p_file: d_int})
-        events, notes = [], []
-        def resolver(name):
-            f_ = repo.lookup(repo.cls(CLS), name)
-            return f_.node if f_ is not None else None
-        end = run_concrete(body_without_doc(flat), env, events, notes, workers=WORKERS, resolver=resolver)
+
+    def resolver(name):
+        f_ = repo.lookup(repo.cls(CLS), name)
+        return f_.node if f_ is not None else None
+    for kind, want_pre, want_post, env, events, notes, end in _add_file_runs(ctx):
         site = "add_file[%s]" % kind
         calls = {}
         for e in events:
@@ -1376,6 +1457,19 @@ def dsk8(ctx, c):
         def need(aspect, cond, text):
             if not cond:
                 problems.append((aspect, text))
+        unsure = []
+        LENGTH_FNS = ("calculate_granules_needed", "calculate_last_sector_bytes_used", "calculate_last_granules_sectors_used")
+
+        def need_from(aspect, arg, fname, text):
+            """the argument is what `fname` computed.  A positive fault: it is a constant, the file's raw length, or what ANOTHER length function computed;
+            any other derivation (a combined helper, a record of all three) is not judged here"""
+            if fname in arg:
+                return
+            others = [f_ for f_ in LENGTH_FNS if f_ != fname and f_ in arg]
+            if others or re.fullmatch(r"-?\d+|None|True|False", arg) or re.fullmatch(r"len\([\w.]+\)", arg):
+                problems.append((aspect, text))
+            else:
+                unsure.append((aspect, arg))
         pre_obj, post_obj = "<%s object>" % want_pre, ("<%s object>" % want_post if want_post else "None")
         news = [e[1] for e in events if e[0] == "new"]
         need("header", want_pre in news, "no %s is built for a %s file (built: %s)" % (want_pre, kind, news))
@@ -1390,7 +1484,7 @@ def dsk8(ctx, c):
         if kind != "ASCII":
             dl = str(fields.get((want_pre, "data_length"), ""))
             need("header", "len(%s.data)" % p_file in dl, "the %s header's data_length is %s, not the length of the file's data" % (kind, dl or "never set"))
-        if kind == "machine-language":
+        if kind.startswith("machine-language"):
             la = str(fields.get((want_pre, "load_addr"), ""))
             need("header", la == "%s.load_addr" % p_file, "the header's load_addr is %s, not the file's load address" % (la or "never set"))
             ea = str(fields.get((want_post, "exec_addr"), ""))
@@ -1413,7 +1507,7 @@ def dsk8(ctx, c):
             need("directory", a[1] == p_file, "write_dir_entry receives %s as the file" % a[1])
             if grans:
                 need("directory", a[2] == "%s[0]" % grans, "the first granule recorded in the directory entry is %s, not %s[0]" % (a[2], grans))
-            need("directory", "calculate_last_sector_bytes_used" in a[3], "the last-sector byte count passed to write_dir_entry is %s" % a[3])
+            need_from("directory", a[3], "calculate_last_sector_bytes_used", "the last-sector byte count passed to write_dir_entry is %s" % a[3])
         if wg and len(wg[0]) >= 4:
             a = wg[0]
             need("data", a[0] == "%s.data" % p_file, "write_to_granules stores %s, not the file's data" % a[0])
@@ -1425,7 +1519,7 @@ def dsk8(ctx, c):
             a = wf[0]
             if grans:
                 need("fat", a[0] == grans, "write_to_fat chains %s, not the allocation list %s" % (a[0], grans))
-            need("fat", "calculate_last_granules_sectors_used" in a[1], "the sector count passed to write_to_fat is %s" % a[1])
+            need_from("fat", a[1], "calculate_last_granules_sectors_used", "the sector count passed to write_to_fat is %s" % a[1])
         for fname in ("calculate_granules_needed", "calculate_last_sector_bytes_used", "calculate_last_granules_sectors_used"):
             for a in calls.get(fname, []):
                 if len(a) >= 3:
@@ -1439,6 +1533,8 @@ def dsk8(ctx, c):
         order = [e[2] for e in events if e[0] == "call" and e[1] == "self" and e[2] in ("find_empty_granule", "write_to_granules", "write_to_fat")]
         if "find_empty_granule" in order and "write_to_granules" in order:
             need("allocation", order.index("find_empty_granule") < order.index("write_to_granules"), "data is written before granules are allocated")
+        for aspect, arg in unsure:
+            c.undecided("%s:%s" % (site, aspect), "length-argument-derivation-not-recognised", arg[:100], where)
         if not problems:
             c.ok(site, "header/trailer from the file, granules recorded, directory entry + data + FAT written from this file's values", where)
         elif notes:
@@ -1458,7 +1554,7 @@ def dsk8(ctx, c):
         def resolver2(name):
             f_ = repo.lookup(repo.cls(CLS), name)
             return f_.node if f_ is not None else None
-        run_concrete(body_without_doc(flat), env, events, notes, workers=WORKERS, resolver=resolver2)
+        run_concrete(body_without_doc(flat), env, events, notes, workers=WORKERS, resolver=resolver2, functions=class_level_functions(repo))
         made = {e[2] for e in events if e[0] == "call" and e[1] == "self"}
         missing = [m_ for m_ in ("write_dir_entry", "write_to_granules", "write_to_fat") if m_ not in made]
         site = "add_file[empty %s]" % kind
@@ -1494,12 +1590,14 @@ def dsk8(ctx, c):
                 isinstance(x, ast.Name) and x.id not in (p_file,) for x in ast.walk(n.test) if isinstance(x, ast.Name) and x.id not in ("len",)):
             t2 = _LenSub().visit(_copy.deepcopy(n.test))
             try:
-                refused = [L for L in (0, 1, 255, 2304, 65534, 65535) if _fold2(t2, dict(ctx.env, __len=L))]
+                # an ASCII file has no length field: its size is bounded by the disk alone (68 granules), so lengths beyond 65535 are probed as well
+                refused = [L for L in (0, 1, 255, 2304, 65534, 65535, 65536, 150000) if _fold2(t2, dict(ctx.env, __len=L))]
             except _NC3:
                 continue
             if refused:
                 c.finding("add_file:size-guard", "a file of %d bytes is refused" % refused[-1],
-                          "add_file raises when `%s`, which refuses a file of %d bytes: the length field holds 0..65535 and such a file fits on an empty disk" % (U(n.test), refused[-1]),
+                          "add_file raises when `%s`, which refuses a file of %d bytes whatever its kind: the 16-bit length field of machine-language and BASIC files holds 0..65535, an ASCII "
+                          "file has no length field at all, and such a file fits on an empty disk" % (U(n.test), refused[-1]),
                           repo.loc(af, n))
             else:
                 c.ok("add_file:size-guard", "no representable length is refused", repo.loc(af, n))
@@ -1519,7 +1617,121 @@ def dsk8(ctx, c):
                 c.ok("add_file:allocation-count", "allocates until the list holds granules_needed entries", repo.loc(af, n))
 
 
-RULES = {"DSK-8": dsk8, "DSK-13": dsk13, "VF-6": vf6, "DSK-1": dsk1, "DSK-2": dsk2, "DSK-3": dsk3, "DSK-4": dsk4, "DSK-6": dsk6, "DSK-7": dsk7, "DSK-12": dsk12}
+def _fold_disk_method(ctx, name, env0, args, overrides, depth=0):
+    """fold DiskFile.<name> exactly over a concrete object state (env0: 'self.x' -> value, mutable values shared); calls of sibling methods are
+    folded the same way unless `overrides` gives a stand-in"""
+    from ..consteval import fold_body
+    if depth > 6:
+        raise NotConst("method recursion")
+    repo = ctx.repo
+    fn = repo.method(CLS, name)
+    params = [p for p in fn.params if p not in ("self", "cls")]
+    env = dict(env0)
+    for p_, a in zip(params, args):
+        env[p_] = a
+
+    class Calls(dict):
+        def __contains__(self, key):
+            if not isinstance(key, str) or key.count(".") != 1:
+                return False
+            recv, nm = key.split(".")
+            return recv in ("self", "cls", CLS) and (nm in overrides or repo.lookup(repo.cls(CLS), nm) is not None)
+
+        def __getitem__(self, key):
+            nm = key.split(".")[1]
+            if nm in overrides:
+                return overrides[nm]
+            return lambda *a, **kw: _fold_disk_method(ctx, nm, env0, a, overrides, depth + 1)
+
+        def __bool__(self):
+            return True
+    return fold_body(body_without_doc(fn.node), env, calls=Calls(), ctors=("MLPreamble", "ASCIIPreamble", "BasicPreamble", "Postamble", "NumericValue"))
+
+
+class _SparseBuf(dict):
+    def __missing__(self, k):
+        return 0xFF
+
+
+def dsk8_fit(ctx, c):
+    """add_file folded exactly on model disks: a file that needs n granules is stored in exactly n free granules when n <= F free ones exist (n = F included),
+    and refused when n > F; n is the minimum for the stream (header + data + trailer)."""
+    from ..consteval import Raised
+    repo = ctx.repo
+    af = repo.method(CLS, "add_file")
+    where = repo.loc(af, af.node)
+    p_file = [p for p in af.params if p != "self"][0]
+    fat = D.FAT_OFFSET
+
+    def run(free, kind, L, n_given):
+        buf = _SparseBuf()
+        for g in range(D.GRANULES):
+            buf[fat + g] = 0xFF if g in free else 0xC1
+        rec = {}
+        ov = {"find_empty_directory_entry": lambda *a: 0,
+              "write_dir_entry": lambda *a: rec.setdefault("dir", a), "write_to_granules": lambda *a: rec.setdefault("gran", a),
+              "write_to_fat": lambda *a: rec.setdefault("fat", a)}
+        if n_given is not None:
+            ov.update({"calculate_granules_needed": lambda *a: n_given, "calculate_last_sector_bytes_used": lambda *a: 1, "calculate_last_granules_sectors_used": lambda *a: 1})
+        t_int, d_int, pre, post = {"ML": (2, 0, 5, 5), "ASCII": (1, 0xFF, 0, 0), "BASIC": (0, 0, 3, 0)}[kind]
+        env0 = dict(ctx.env)
+        env0.update({"self.buffer": buf, "self.granule_fill_order": list(range(D.GRANULES)), "%s.type.int" % p_file: t_int, "%s.data_type.int" % p_file: d_int,
+                     "%s.data" % p_file: [0] * L, "%s.load_addr" % p_file: "<load>", "%s.exec_addr" % p_file: "<exec>",
+                     "preamble.length": pre, "postamble.length": post})
+        try:
+            _fold_disk_method(ctx, "add_file", env0, ("<file>",), ov)
+        except Raised as e:
+            return ("refused", e.name)
+        lst = rec.get("fat", (None,))[0]
+        return ("stored", list(lst) if isinstance(lst, (list, tuple)) else None, rec)
+    bad, und = [], None
+    try:
+        for free, n in (([5, 40, 67], 3), ([5, 40, 67], 2), ([12], 1), (list(range(68)), 68), ([5, 40, 67], 4), ([], 1)):
+            r = run(set(free), "ASCII", 10, n)
+            fits = n <= len(free)
+            label = "%d granule(s) needed, %d free" % (n, len(free))
+            if fits and r[0] == "refused":
+                bad.append(("fit", "a file that needs %d granule(s) is refused (%s) on a disk with %d free" % (n, r[1], len(free))))
+            elif fits and (r[1] is None or len(r[1]) != n or len(set(r[1])) != n or not set(r[1]) <= set(free)):
+                bad.append(("fit", "%s: the chain written is %s (free were %s)" % (label, r[1], sorted(free)[:6])))
+            elif not fits and r[0] != "refused":
+                bad.append(("refusal", "%s: the file is stored in %s" % (label, r[1])))
+        for kind, pre, post in (("ML", 5, 5), ("BASIC", 3, 0), ("ASCII", 0, 0)):
+            G = D.GRANULE_LEN
+            for L in sorted({0, 10, G - pre - post - 1, G - pre - post, G - pre - post + 1, G - pre - 3, G - pre, G, 2 * G - pre - post - 1, 2 * G - pre - post}):
+                if L < 0:
+                    continue
+                stream = L + pre + post
+                want = stream // G + 1
+                r = run(set(range(68)), kind, L, None)
+                if r[0] == "refused":
+                    bad.append(("minimum", "a %s file of %d bytes is refused (%s) on an empty disk" % (kind, L, r[1])))
+                elif r[1] is None or len(r[1]) != want:
+                    bad.append(("minimum", "a %s file of %d data bytes (stream %d) is given %s granule(s), it needs %d" % (kind, L, stream, len(r[1]) if r[1] is not None else "?", want)))
+    except NotConst as e:
+        und = str(e)
+    except Exception as e:
+        und = "%s: %s" % (type(e).__name__, e)
+    if und:
+        c.undecided("add_file:allocation:fit", "not-foldable", und[:120], where)
+        return
+    seen = set()
+    for aspect, text in bad:
+        if aspect in seen:
+            continue
+        seen.add(aspect)
+        c.finding("add_file:allocation:%s" % aspect, text[:110], "DiskFile.add_file folded on model disks: %s" % text, where)
+    for aspect in ("fit", "refusal", "minimum"):
+        if aspect not in seen:
+            c.ok("add_file:allocation:%s" % aspect, "folded on model disks", where)
+
+
+def dsk8_all(ctx, c):
+    dsk8(ctx, c)
+    dsk8_fit(ctx, c)
+
+
+RULES = {"DSK-8": dsk8_all, "DSK-13": dsk13, "VF-6": vf6, "DSK-1": dsk1, "DSK-2": dsk2, "DSK-3": dsk3, "DSK-4": dsk4, "DSK-6": dsk6, "DSK-7": dsk7, "DSK-12": dsk12}
 
 
 
